@@ -150,6 +150,10 @@ class Spectrum:
     def _ufunc(self, ufunc, other, sampling='min', method='linear', fill_value=0):
 
         if isinstance(other, (int, float, list, tuple, np.ndarray)):
+            if isinstance(other, np.ndarray):
+                # plain element-wise arithmetic whatever ndarray subclass the
+                # operand is (a masked array would bring np.ma domain handling)
+                other = np.asarray(other)
             # the result must not share its wavelength array with the operand
             wave = self.wave.copy()
             try:
